@@ -1,7 +1,7 @@
 (* C15 - Geometric and algebraic intersection strategies agree (partial: the algebraic side; agreement of the two
    floating-point pipelines is a support sweep). Statements only. *)
 From Coq Require Import List ZArith QArith Bool String.
-From BZ Require Import Base.PyVal Gen.PyFnAlgebraic Theory.Algebraic.
+From BZ Require Import Base.PyVal Gen.PyFnAlgebraic Theory.Algebraic Theory.AlgebraicAgree.
 Import ListNotations.
 Open Scope Q_scope.
 
@@ -25,3 +25,19 @@ Theorem C15_implicit_curve_contains_the_first_curve : forall o x0 x1 x2 y0 y1 y2
                 (VQ ((1 - s) * (1 - s) * y0 + 2 * (1 - s) * s * y1 + s * s * y2)) = VQ e /\ e == 0.
 Proof. exact implicit_vanishes_degree2. Qed.
 Print Assumptions C15_implicit_curve_contains_the_first_curve.
+
+(* line as first curve: the regenerated implicit function is EXACT in both directions - it vanishes at (x, y) iff (x, y) is a
+   point B1(s) of the line through the two distinct nodes (s rational, not restricted to [0,1]) - and that s is unique.
+   So t is a root of the intersection function of a line-curve pair iff B2(t) is a common point of the line and the curve:
+   in exact arithmetic the algebraic strategy characterises the same set of parameter pairs as the geometric one *)
+Theorem C15_line_implicit_function_is_exact : forall o x0 x1 y0 y1 x y, ~ (x0 == x1 /\ y0 == y1) ->
+  exists e, py_evaluate o (N2x2 x0 x1 y0 y1) (VQ x) (VQ y) = VQ e /\
+    (e == 0 <-> exists s, x == (1 - s) * x0 + s * x1 /\ y == (1 - s) * y0 + s * y1).
+Proof. exact line_implicit_zero_iff_on_line. Qed.
+Print Assumptions C15_line_implicit_function_is_exact.
+Theorem C15_line_parameter_is_unique : forall x0 x1 y0 y1 s s', ~ (x0 == x1 /\ y0 == y1) ->
+  (1 - s) * x0 + s * x1 == (1 - s') * x0 + s' * x1 -> (1 - s) * y0 + s * y1 == (1 - s') * y0 + s' * y1 -> s == s'.
+Proof. exact line_parameter_unique. Qed.
+Print Assumptions C15_line_parameter_is_unique.
+Example C15_line_example : ~ (0 == 2 /\ 0 == 4) /\ (1 == (1 - (1#2)) * 0 + (1#2) * 2 /\ 2 == (1 - (1#2)) * 0 + (1#2) * 4).
+Proof. split; [intros [E _]; discriminate E | split; reflexivity]. Qed.
